@@ -68,70 +68,8 @@ def discover_entries(ctx):
 
 
 def build_region(ctx):
-    F = ctx.F
-    cg = callgraph(F)
     entries = discover_entries(ctx)
-    region = {}   # path -> (blocks or None, how)
-    work = []
-
-    def add(path, how):
-        if path not in region and path in F.fns and not _is_test(path) and F.fns[path].kind in ("Fn", "AssocFn", "Closure"):
-            region[path] = (None, how)
-            work.append(path)
-
-    for body, bb, kind in entries:
-        if bb is None:
-            blocks = None
-        else:
-            blocks = {b.idx for b in body.blocks if b.idx in body.reach and body.dominates(bb, b.idx) and b.idx != bb}
-        region[body.path] = (blocks, "entry:" + kind)
-        work.append(body.path)
-    while work:
-        p = work.pop()
-        body = F.fns[p]
-        blocks = region[p][0]
-        for bb, kind, targets in cg.callees(body):
-            if blocks is not None and bb not in blocks:
-                continue
-            if panics.in_log_macro(body.blocks[bb].term):
-                continue
-            for t in targets:
-                tb = F.fns.get(t)
-                if tb is None:
-                    continue
-                if kind == "indirect":
-                    ins = tb.j.get("inputs", [])
-                    if any(any(c in i for c in OTHER_CTX) for i in ins):
-                        continue
-                add(t, "%s from %s" % (kind, short(p)))
-        # call-backs: local impls of external traits for ADTs built here; Deserialize impls for local
-        # types named in generic arguments
-        for bb, i, s in body.statements():
-            if blocks is not None and bb not in blocks:
-                continue
-            if s["s"] == "assign" and s["rvalue"]["rv"] == "agg" and s["rvalue"]["kind"] == "adt":
-                adt = s["rvalue"]["adt"]
-                if adt in F.adts:
-                    for imp in F.impls:
-                        if imp.get("self_adt") == adt and imp.get("trait") and not imp["trait"].startswith("bevy_replicon") \
-                                and not imp["trait"].startswith("core::") and not imp["trait"].startswith("bevy_"):
-                            for it in imp["items"]:
-                                add(it, "callback impl %s for %s" % (short(imp["trait"]), short(adt)))
-        for bb, t in body.calls():
-            if blocks is not None and bb not in blocks:
-                continue
-            for a in t.get("callee", {}).get("args", []):
-                base = a.split("<")[0]
-                if base in F.adts:
-                    for imp in F.impls:
-                        if imp.get("self_adt") == base and imp.get("trait", "").startswith("serde::de::Deserialize"):
-                            for it in imp["items"]:
-                                add(it, "serde callback for %s" % short(base))
-                                for c in F.closures_of(it):
-                                    add(c.path, "closure")
-        for c in F.closures_of(p):
-            pass
-    # closures nested in region functions are reached through closure edges already
+    region = panics.close_region(ctx.F, [(b, bb, kind) for (b, bb, kind) in entries], OTHER_CTX, _is_test)
     return entries, region
 
 
